@@ -7,6 +7,8 @@ import (
 	"fmt"
 	"net/http"
 	"net/url"
+	"os"
+	"os/exec"
 	"strings"
 	"testing"
 	"time"
@@ -419,8 +421,6 @@ func (c *c09) clientSide(base int, s *session) {
 	}
 	keyPEM := []byte(nil)
 	_ = keyPEM
-	ks := rp.NewRemoteKeySet(hc, "https://evil.sim/keys")
-	jws, _ := jose.ParseSigned(s.tokens.IDToken, []jose.SignatureAlgorithm{jose.RS256, jose.RS384, jose.RS512, jose.PS256, jose.ES256, jose.ES384, jose.ES512, jose.EdDSA})
 
 	helpers := []struct {
 		name string
@@ -468,7 +468,6 @@ func (c *c09) clientSide(base int, s *session) {
 			_, err = ts.TokenCtx(ctx)
 			return err
 		}},
-		{"remoteKeySet.VerifySignature", func() error { _, err := ks.VerifySignature(ctx, jws); return err }},
 		{"oauth2 via rp (auto-detect)", func() error {
 			cfg := *party.OAuthConfig()
 			cfg.Endpoint.AuthStyle = oauth2.AuthStyleAutoDetect
@@ -477,16 +476,7 @@ func (c *c09) clientSide(base int, s *session) {
 		}},
 	}
 	_ = signer
-	var answers []hostile
-	for _, pc := range payloadCatalogue {
-		answers = append(answers, hostile{200, pc.doc, "application/json"}, hostile{400, pc.doc, "application/json"})
-	}
-	answers = append(answers, hostile{200, "", ""}, hostile{204, "", ""}, hostile{500, "boom", "text/plain"}, hostile{302, "", ""}, hostile{401, `{"error":"invalid_client"}`, "application/json"},
-		hostile{200, goodDisc[:len(goodDisc)/2], "application/json"}, hostile{200, strings.Replace(goodDisc, issuer, "https://other.sim", 1), "application/json"},
-		hostile{200, `{"access_token":"a","token_type":"Bearer","id_token":"` + s.tokens.IDToken + `"}`, "application/json"},
-		hostile{200, `{"access_token":"a","token_type":"Bearer","id_token":"a.b.c","expires_in":-5}`, "application/json"},
-		hostile{200, `{"access_token":"a","token_type":"Bearer","id_token":"` + b64(`{"alg":"RS256"}`) + "." + b64(`null`) + ".c" + `"}`, "application/json"},
-		hostile{200, `{"sub":"someone-else"}`, "application/json"}, hostile{200, strings.Repeat("[", 10000), "application/json"})
+	answers := hostileAnswers(goodDisc, issuer, s.tokens.IDToken)
 	id := base
 	for _, hp := range helpers {
 		for ai := range answers {
@@ -653,7 +643,87 @@ func RunC09(t *testing.T, spec kernel.Spec) *kernel.Outcome {
 			o.Distinct(fmt.Sprintf("router=%s case=%d", w.Router, id))
 		}
 	})
+	if o.Infra == "" && !spec.KeepSet {
+		keysetCasesInChild(o, 100000)
+	}
 	o.Nontrivial = o.Steps > 1000
 	o.Trace = []string{fmt.Sprintf("catalogue of %d cases", o.Steps)}
 	return o
+}
+
+// hostileAnswers is the catalogue of faulty or hostile provider answers.
+func hostileAnswers(goodDisc, issuer, idToken string) []hostile {
+	var answers []hostile
+	for _, pc := range payloadCatalogue {
+		answers = append(answers, hostile{200, pc.doc, "application/json"}, hostile{400, pc.doc, "application/json"})
+	}
+	answers = append(answers, hostile{200, "", ""}, hostile{204, "", ""}, hostile{500, "boom", "text/plain"}, hostile{302, "", ""}, hostile{401, `{"error":"invalid_client"}`, "application/json"},
+		hostile{503, "null", "application/json"}, hostile{500, " null ", "application/json"},
+		hostile{200, goodDisc[:len(goodDisc)/2], "application/json"}, hostile{200, strings.Replace(goodDisc, issuer, "https://other.sim", 1), "application/json"},
+		hostile{200, `{"access_token":"a","token_type":"Bearer","id_token":"` + idToken + `"}`, "application/json"},
+		hostile{200, `{"access_token":"a","token_type":"Bearer","id_token":"a.b.c","expires_in":-5}`, "application/json"},
+		hostile{200, `{"access_token":"a","token_type":"Bearer","id_token":"` + b64(`{"alg":"RS256"}`) + "." + b64(`null`) + ".c" + `"}`, "application/json"},
+		hostile{200, `{"sub":"someone-else"}`, "application/json"}, hostile{200, strings.Repeat("[", 10000), "application/json"})
+	return answers
+}
+
+// C09KeysetChild runs in a child process: the remote key set fetches keys in a goroutine of its own, so a panic
+// there cannot be recovered and takes the process down. The child prints the case it is about to run; the parent
+// attributes a crash to that case.
+func C09KeysetChild(from int) {
+	key := world.FixtureKey("rsa", 0)
+	tok := signRaw([]byte(`{"iss":"https://evil.sim","sub":"u1"}`), jose.RS256, key.Key, "k1")
+	jws, err := jose.ParseSigned(tok, []jose.SignatureAlgorithm{jose.RS256})
+	if err != nil {
+		fmt.Println("CHILD-ERROR", err)
+		return
+	}
+	h := &hostile{}
+	n := world.NewNet(nil)
+	n.KeepLog = false
+	n.Hosts["evil.sim"] = h
+	hc := n.Client("victim", nil, false)
+	answers := hostileAnswers(`{"issuer":"https://evil.sim"}`, "https://evil.sim", tok)
+	for i := from; i < len(answers); i++ {
+		fmt.Printf("CASE %d\n", i)
+		*h = answers[i]
+		ks := rp.NewRemoteKeySet(hc, "https://evil.sim/keys")
+		_, _ = ks.VerifySignature(context.Background(), jws)
+	}
+	fmt.Printf("DONE %d\n", len(answers))
+}
+
+// keysetCasesInChild drives the child process and reports crashes as violations.
+func keysetCasesInChild(o *kernel.Outcome, base int) {
+	from, crashes, total := 0, 0, 0
+	for crashes < 6 {
+		cmd := exec.Command(os.Args[0], "-test.run", "TestC09Child", "-test.count=1")
+		cmd.Env = append(os.Environ(), fmt.Sprintf("VERIF_C09_CHILD=%d", from))
+		out, _ := cmd.CombinedOutput()
+		last, done := -1, false
+		for _, line := range strings.Split(string(out), "\n") {
+			var n int
+			if _, err := fmt.Sscanf(line, "CASE %d", &n); err == nil {
+				last = n
+			}
+			if _, err := fmt.Sscanf(line, "DONE %d", &n); err == nil {
+				done, total = true, n
+			}
+		}
+		if done {
+			break
+		}
+		if last < 0 {
+			o.Infra = "C09 key set child did not start: " + firstLine(string(out))
+			return
+		}
+		crashes++
+		detail := "process crashed"
+		if i := strings.Index(string(out), "panic:"); i >= 0 {
+			detail = firstLine(string(out)[i:])
+		}
+		o.Violate("C09", "panic", "client/remoteKeySet.VerifySignature-goroutine", base+last, "the remote key set's download goroutine panicked (unrecoverable, the process died) on hostile JWKS answer #%d: %s", last, detail)
+		from = last + 1
+	}
+	o.ProbeN("keyset-child-cases", total)
 }
